@@ -164,7 +164,7 @@ AllocU(V, st, kind, text, nested) ==
   IF UseCache(V, nested) /\ CacheHit(st, <<kind, text>>)
   THEN [st |-> st, addr |-> CacheGet(st, <<kind, text>>)]
   ELSE LET t == StripLf(text)
-           h == ParseHead(t)
+           h == ParseHead(V, t)
            fold == IF kind = "class" THEN [st |-> st, kb |-> <<>>]
                    ELSE AllocItems(V, st,
                           SplitKbs(V, SubSeq(t, h.next + 1, Len(t)), 1).items,
